@@ -40,6 +40,7 @@ func Main(args []string) int {
 	var salt, failIf, sleepIf, omit, omitIf, touch, rm, rmIf string
 	fail, sleepMs, sleepAfterMs := 0, 0, 0
 	dangle := false
+	sleepIfMs := 20000
 	for i := 1; i < len(args); i++ {
 		next := func() string {
 			i++
@@ -59,6 +60,8 @@ func Main(args []string) int {
 			sleepMs, _ = strconv.Atoi(next())
 		case "--sleepafter":
 			sleepAfterMs, _ = strconv.Atoi(next())
+		case "--sleepifms":
+			sleepIfMs, _ = strconv.Atoi(next())
 		case "--sleepif":
 			sleepIf = next()
 		case "--omit":
@@ -102,7 +105,7 @@ func Main(args []string) int {
 		time.Sleep(time.Duration(sleepMs) * time.Millisecond)
 	}
 	if sleepIf != "" && exists(filepath.Join(root, sleepIf)) {
-		time.Sleep(20 * time.Second)
+		time.Sleep(time.Duration(sleepIfMs) * time.Millisecond)
 	}
 	ins, err := spec.ResolveInputsDisk(cwd, t)
 	if err != nil {
